@@ -194,6 +194,24 @@ def search(tier, rng):
         yield J('p_errflow', rng.choice(BASES), rnd_stack(rng), rnd_drawable(rng))
 
 
-LEVEL_TEXT = 'TODO'
-LEVEL_NOTE = 'TODO'
-CLAIMED = False
+LEVEL_TEXT = ('Proof: the generic Coq theorem C04_propagating_stops (coq/Proofs/Errlang.v, induction over skeletons incl. loops, then over the '
+              'call depth) says: in ANY table of function skeletons in which every call site is Propagated and nothing is Other, for every entry '
+              'function, every oracle (loop counts, branch choices, dynamic dispatch of every call to the underlying target or to ANY translated '
+              'function of that name) and every k < n (n = calls of the fault-free run), the run whose k-th target call fails with e returns Err e '
+              'unchanged and its log is exactly the first k fault-free calls plus the failing call, nothing after it; a fault at k >= n changes '
+              'nothing. Per run, translate/errflow (Rust, syn) regenerates the skeleton of EVERY function in src/ and core/src/ returning '
+              'Result<_, X::Error> (59 functions, 79 call sites, 16 names) and C04_repo_offending_sites_none / C04_repo_errflow_ok / '
+              'C04_repo_no_other decide by vm_compute that all sites are Propagated (?, tail expression, return) - so a `let _ =`, `;`, `.ok()`, '
+              '`.unwrap_or..`, a result bound to a variable, a closure/macro/helper that swallows, map_err, a hand-made Err breaks a theorem; '
+              'C04_repo_errors_stop_drawing is the instance for the repository table. The dynamic sweep p_errflow (implementation only) fails '
+              'every k < n on the real code for every drawable family x adapter stack x {native, draw_iter-only} target and supplies the '
+              'concrete (drawable, stack, k) replay.')
+LEVEL_NOTE = ('The theorem is about the skeleton semantics (coq/Model/Errlang.v), not about Rust: the translator (call recognition by name, '
+              'classification of what happens to each Result) is modelled, not verified; it fails closed (unknown shapes -> Other -> theorem breaks; '
+              'unparseable file / macro_rules body calling a propagating method -> translator error -> VIOLATION). Control decisions are an oracle '
+              'shared by the fault-free and the faulted run (they do not depend on the Ok value of target calls, which is ()); foreign callees are '
+              'atomic leaves assumed compliant; panics are outside C04. 14 seeded mutations (dropped ?, .ok() on one border only, deferred error in '
+              'Text::draw, retry, call after the failure, stroke-only discard, swallowing adapter / trait default / helper / closure / nested fn, '
+              'map_err, continue-after-error) are all reported as VIOLATION, 13 of them with a concrete failing (drawable, stack, k) from the sweep; '
+              'a benign refactor (new propagating helper) stays OK.')
+CLAIMED = True
